@@ -22,7 +22,10 @@ EXC_CLASSES, BASE_CLASSES = {}, {}
 def exc_class(i, is_exc):
     table = EXC_CLASSES if is_exc else BASE_CLASSES
     if i not in table:
-        table[i] = type(f"{'E' if is_exc else 'B'}{i}", (Exception if is_exc else BaseException,), {})
+        # every third Exception class is a TypeError (what a wrong call would raise too): what a callback
+        # raises is never taken for a sign that it was called wrongly
+        base = (TypeError if i % 3 == 0 else Exception) if is_exc else BaseException
+        table[i] = type(f"{'E' if is_exc else 'B'}{i}", (base,), {})
     return table[i]
 
 
@@ -211,13 +214,25 @@ class Run:
         elif cb["kind"] == "async":
             async def fn(*args):
                 await run.body_async(ctx, cb, len(args) > 0, *args)
-        if cb["kind"] == "sync" and cb["id"] % 4 == 3:
-            # a callable object (no __name__ / __qualname__) is a callback like any other
+        if cb["kind"] in ("sync", "async") and cb["id"] % 4 == 3:
+            # a callable object (no __name__ / __qualname__, and falsy: an empty container with __call__) is a
+            # callback like any other
             inner = fn
 
-            class CallableObject:
-                def __call__(self, *args):
-                    return inner(*args)
+            if cb["kind"] == "sync":
+                class CallableObject:
+                    def __call__(self, *args):
+                        return inner(*args)
+
+                    def __len__(self):
+                        return 0
+            else:
+                class CallableObject:
+                    async def __call__(self, *args):
+                        return await inner(*args)
+
+                    def __bool__(self):
+                        return False
             return CallableObject()
         if cb["kind"] in ("sync", "async"):
             return fn
